@@ -154,8 +154,11 @@ class Dm14Query:
                 if self.state is QueryState.WAIT_FOR_OPER_COMPLETE:
                     assert status is Command.OPERATION_COMPLETED.value
                     self._send_operation_complete()
-                    self.state = QueryState.IDLE
-                    self.data_queue.put(self.mem_data)
+                    # (the caller may have given up - timeout - while the closing DM14 was being written:
+                    # its result must not be left behind for the next transaction)
+                    if self.state is QueryState.WAIT_FOR_OPER_COMPLETE:
+                        self.state = QueryState.IDLE
+                        self.data_queue.put(self.mem_data)
                 else:
                     assert self.state is QueryState.WAIT_FOR_SEED
                     if self._seed_from_key is not None:
